@@ -157,6 +157,11 @@ func buildPool(p idPlan) []*accessory.Accessory {
 				}
 			}
 		}
+		if k%2 == 0 {
+			// the application looks at the object before it hands it to the transport (a debug log, a config dump): encoding an
+			// accessory that has no ids yet must not influence what is served later
+			json.Marshal(a)
+		}
 		pool = append(pool, a)
 	}
 	return pool
